@@ -88,11 +88,21 @@ def drop_impls(F, type_re):
     return out
 
 
-def panic_in_drop(ctx, rid, type_re, floor=1):
+def drops_reaching(F, defp):
+    """workspace Drop::drop impls whose cone contains a call of `defp`"""
+    out = []
+    for i in F.inst:
+        if i.local and i.body is not None and re.match(r"^<.* as core::ops::drop::Drop>::drop$", i.name):
+            if any(F.inst[x].defp == defp for x in F.reach([i])):
+                out.append(i)
+    return out
+
+
+def panic_in_drop(ctx, rid, type_re, floor=1, drops=None):
     F = ctx.F
     ctx.rule(rid, "no explicit panic site is reachable from a workspace-local Drop::drop (a panic in a destructor during "
                   "unwinding aborts the process)", floor=floor)
-    ds = drop_impls(F, type_re)
+    ds = drops if drops is not None else drop_impls(F, type_re)
     if not ds:
         raise AnchorLost("no workspace Drop impl matching %s" % type_re)
     for d in ds:
